@@ -13,8 +13,10 @@ def build_base(rnd):
     slot = -(-(session.DRO + rnd.choice([256, 700, 1500])) // blk) * blk
     s = session.Scn(ns, slot, blk)
     ups = []          # (start op index, sz, n, image)
-    def update(sz, n, deliver, finish, follow):
+    def update(sz, n, deliver, finish, follow, corrupt=False):
         img = ts004.make_image(rnd, n, sz)
+        if corrupt:                                     # an image whose CRC field does not match its content
+            img = bytes([img[0] ^ (1 << rnd.randrange(8))]) + img[1:]
         st = s.add("start %d %d" % (sz, n))
         ups.append((st, sz, n, img))
         cap = session.max_l(slot, sz)
@@ -38,7 +40,11 @@ def build_base(rnd):
     elif kind == "recover":
         update(*g(), "part", False, ["drop", "recover"])
     update(*g(), "all", True, ["bl", "markbl int"])                                    # the main update, copy marked done
-    update(*g(), "part", False, ["drop", "recover", "cancel"])                         # and a later one that is abandoned
+    if rnd.random() < 0.5:
+        update(*g(), "part", False, ["drop", "recover", "cancel"])                     # and a later one that is abandoned
+    else:
+        # ... or one whose image is corrupt, fully delivered, the session object lost before the final check
+        update(*rnd.choice([x for x in geos if x[0] * x[1] >= 4]), "all", False, ["drop"], corrupt=True)
     s.meta = {"ups": ups}
     return s
 
@@ -46,6 +52,10 @@ def build_base(rnd):
 def post_ops(base):
     ops = ["reboot", "recover", "bl", "validbl", "fb", "validfb", "hdrs"]
     mx = max(sz * n for _, sz, n, _ in base.meta["ups"])
+    for i in range(base.ns):
+        ops += ["valid %d" % i, "dump %d %x %d" % (i, session.DRO, mx)]
+    # the final check of whatever session recovery returned (none: no-op), and the same inspection again
+    ops += ["done", "bl", "validbl", "hdrs"]
     for i in range(base.ns):
         ops += ["valid %d" % i, "dump %d %x %d" % (i, session.DRO, mx)]
     _, sz, n, _ = base.meta["ups"][-1]
@@ -75,27 +85,29 @@ def oracle(base, ref_info, s, out):
     for (h, lg), nm in zip(post, names):
         if h == "panic":
             msgs.append("%s panics after a power loss at operation %d%s" % (nm, m["k"], " (torn %s)" % (m["torn"],) if m["torn"] else ""))
-    def tok(name, nth=0):
-        idxs = [i for i, nm in enumerate(names) if nm == name]
-        return post[idxs[nth]][0]
-    hd = tok("hdrs").split(",")
-    for i, h in enumerate(hd):
-        if h == "-" or len(h) != 56: continue
-        b = bytes.fromhex(h)
-        kind, seq, ext = int.from_bytes(b[0:4], "little"), int.from_bytes(b[4:8], "little"), int.from_bytes(b[16:20], "little")
-        if kind == 0 and ext == 0x44444444:
-            v = tok("valid %d" % i)
-            if v != "ok":
-                msgs.append("slot %d reads as completed firmware but fails validation: %s (power loss at operation %d%s)" % (i, v, m["k"], ", torn %s" % (m["torn"],) if m["torn"] else ""))
-            imgs = ref_info.get((i, seq))
-            if imgs:
-                d = [t for t, nm in zip(post, names) if nm.startswith("dump %d " % i)][0][0]
-                if not any(bytes.fromhex(d)[:len(img)] == img for img in imgs):
-                    msgs.append("slot %d reads as completed firmware (sequence number %d) but does not hold the image transmitted for it" % (i, seq))
-    bl = tok("bl")
-    if bl.startswith("inc") or bl.startswith("fail"):
-        if tok("validbl") != "ok":
-            msgs.append("bl_boot_status designates slot %s which fails validation: %s" % (bl, tok("validbl")))
+    cut = names.index("done")
+    for lo, hi, when in ((0, cut, ""), (cut, len(names), " after the final check of the recovered session")):
+        seg_post, seg_names = post[lo:hi], names[lo:hi]
+        def tok(name):
+            return seg_post[seg_names.index(name)][0]
+        hd = tok("hdrs").split(",")
+        for i, h in enumerate(hd):
+            if h == "-" or len(h) != 56: continue
+            b = bytes.fromhex(h)
+            kind, seq, ext = int.from_bytes(b[0:4], "little"), int.from_bytes(b[4:8], "little"), int.from_bytes(b[16:20], "little")
+            if kind == 0 and ext == 0x44444444:
+                v = tok("valid %d" % i)
+                if v != "ok":
+                    msgs.append("slot %d reads as completed firmware%s but fails validation: %s (power loss at operation %d%s)" % (i, when, v, m["k"], ", torn %s" % (m["torn"],) if m["torn"] else ""))
+                imgs = ref_info.get((i, seq))
+                if imgs:
+                    d = [t for t, nm in zip(seg_post, seg_names) if nm.startswith("dump %d " % i)][0][0]
+                    if not any(bytes.fromhex(d)[:len(img)] == img for img in imgs):
+                        msgs.append("slot %d reads as completed firmware%s (sequence number %d) but does not hold the image transmitted for it" % (i, when, seq))
+        bl = tok("bl")
+        if bl.startswith("inc") or bl.startswith("fail"):
+            if tok("validbl") != "ok":
+                msgs.append("bl_boot_status designates slot %s%s which fails validation: %s" % (bl, when, tok("validbl")))
     return msgs
 
 
@@ -118,6 +130,7 @@ def run(chk):
         b.meta["info"] = info
         counts = crash.op_counts(b, ro)
         idxs, total = crash.interesting_indices(b, ro, rnd, limit)
+        if total not in idxs: idxs.append(total)          # always: power lost after the last operation of the history
         flat = [o for h, lg in ro for o in session.expand_log(lg, b.blk)]
         pops = post_ops(b)
         for k in idxs:
@@ -146,7 +159,7 @@ def run(chk):
         if len(chk.failures) > 10: break
     chk.note_cases("session-torn", clines, nt, sample_n=1, dist=dist)
     return chk.finish(level="proof",
-        rule="session-torn: base histories (confirmed image; cancelled / rejected / recovered update; a completed update with copy marked; an abandoned later update incl. recover and cancel) with power lost at every modifying operation "
+        rule="session-torn: base histories (confirmed image; cancelled / rejected / recovered update; a completed update with copy marked; an abandoned later update incl. recover and cancel, or a fully delivered update whose image is corrupt and whose session object is lost before the final check) with power lost at every modifying operation "
              "(start, each handle_segment, final mark, recovery remediation, cancel, status marks; inside erase runs the first / second / last block; sampled above %d per history) and, for programs, torn outcomes: nothing, byte prefixes, and a partially programmed byte with sampled keep-masks "
-             "(thorough: dense masks for the 4-byte words); then reboot and try_recover, bl_boot_status, fallback_firmware, validation and dump of every slot, start_update; non-trivial = every case; distinct by case text" % limit,
+             "(thorough: dense masks for the 4-byte words); then reboot and try_recover, bl_boot_status, fallback_firmware, validation and dump of every slot, the final check of the recovered session followed by the same inspection, start_update; non-trivial = every case; distinct by case text" % limit,
         trusted=core.TRUSTED_COMMON + ["C04: torn-write device model of SimNor / Mgr.torn_prog: a prefix of the bytes fully programmed, one byte with any subset of its bits programmed, the rest untouched; erase atomic per block"])
